@@ -507,6 +507,16 @@ func (fr *Frame) convert(st *State, x *ssa.Convert) {
 	case fs == SInt && ts == SReal:
 		fr.setVal(st, x, "(to_real "+v.T+")")
 	case fs == SReal && ts == SInt:
+		// Go spec: converting a floating-point value that the integer type cannot represent yields an
+		// implementation-dependent result (MinInt64 on amd64) - a safety obligation, like an index out of range.
+		if tb, tu := intBits(to); tb > 0 {
+			// the value is truncated towards zero first: (-2^(b-1) - 1, 2^(b-1)) for signed, (-1, 2^b) for unsigned types
+			lo, hi := "(- (- "+pow2(tb-1)+".0) 1.0)", pow2(tb-1)+".0"
+			if tu {
+				lo, hi = "(- 1.0)", pow2(tb)+".0"
+			}
+			fr.safe(st, "f2i", x.Pos(), "floating-point value representable in the integer type it is converted to", "(and (> "+v.T+" "+lo+") (< "+v.T+" "+hi+"))")
+		}
 		fr.setVal(st, x, "(ite (>= "+v.T+" 0.0) (to_int "+v.T+") (- (to_int (- "+v.T+"))))")
 		u.notes = append(u.notes, fmt.Sprintf("%s: float-to-int conversion at %s is exact truncation (A-FLOAT)", fr.oblFn, fr.pos(x.Pos())))
 	case fs == SReal && ts == SReal:
